@@ -1,9 +1,187 @@
 import RichModel.Drv.Proto
 import RichModel.Drv.Ratio
-/- Driver handlers for property C07 (tables): the width arithmetic for now; the table renderer is added by the layout builder. -/
-namespace RichModel.Drv.C07
-open RichModel RichModel.Proto
+import RichModel.Model.Table
+import RichModel.Gen.CellWidths
+import RichModel.Gen.TableBoxes
+/-
+Driver handlers for property C07 (tables): the width arithmetic (Drv/Ratio) and the table model.
 
-def handlers : List (String × (List String → String)) := Drv.Ratio.handlers
+`table.bundle <TAB> pool <TAB> variant <TAB> variant …`
+  pool    = oracles separated by `;`; an oracle = one entry per width 0..W separated by `|`;
+            an entry = `min max#k#line/line/…` (k = number of lines; a line = space separated code points)
+            or `!` (real rich raised at that width).
+  variant = `flags;avail;opts;rows;columns` (see `decVariant`); cells refer to oracles by index.
+  answer  = one answer per variant joined by `@`; a variant answers
+            `W<widths>L<lines>` | `err:AssertionError` | `unmodelled` (an oracle was asked outside its table).
+-/
+namespace RichModel.Drv.C07
+open RichModel RichModel.Proto RichModel.Drv.Ratio
+
+def cw : Char → Nat := charWidthT Gen.cellWidths
+
+structure OEntry where
+  meas : Measurement
+  lines : List (List Char)
+
+abbrev Oracle := Array (Option OEntry)
+
+def decEntry (s : String) : Option OEntry :=
+  match s.splitOn "#" with
+  | [m, k, body] =>
+    match m.splitOn " " with
+    | [mn, mx] =>
+      let lines := if k == "0" then [] else (body.splitOn "/").map decStr
+      some { meas := ⟨decInt mn, decInt mx⟩, lines := lines }
+    | _ => none
+  | _ => none
+
+def decOracle (s : String) : Oracle := ((s.splitOn "|").map decEntry).toArray
+
+def decPool (s : String) : Array Oracle := if s.isEmpty then #[] else ((s.splitOn ";").map decOracle).toArray
+
+def Oracle.has (o : Oracle) (w : Nat) : Bool := match o[w]? with | some (some _) => true | _ => false
+
+def Oracle.toCell (o : Oracle) : Cell :=
+  { measure := fun w => match o[w]? with | some (some e) => e.meas | _ => ⟨0, 0⟩,
+    renderLines := fun w => match o[w]? with | some (some e) => e.lines | _ => [] }
+
+def Oracle.toLines (o : Oracle) : Nat → List (List Char) := fun w => match o[w]? with | some (some e) => e.lines | _ => []
+
+def lookupBox (name : String) : Option (Option Box) :=
+  if name == "-" then some none
+  else match Gen.tableBoxes.find? (·.1 == name) with
+    | some e => (Box.ofLines? e.2.2).map some
+    | none => none
+
+/-- A decoded variant: the model table plus, per column, the oracles `getCells` will consult (same order). -/
+structure Variant where
+  fl : Flags
+  avail : Int
+  t : Table
+  colOracles : List (List Oracle)
+  titleO : Option Oracle
+  captionO : Option Oracle
+  wf : Bool     -- every column has at most `rows` cells (so `self.rows[index - show_header]` cannot raise)
+
+def getOracle (pool : Array Oracle) (s : String) : Option Oracle := if s == "-" then none else pool[decNat s]?
+
+def decColumn (pool : Array Oracle) (s : String) : Option (Column × List Oracle) :=
+  match s.splitOn " " with
+  | w :: mn :: mx :: ra :: nw :: hdr :: ftr :: _n :: cells =>
+    let cellOs := cells.filterMap (getOracle pool)
+    if cellOs.length != cells.length then none
+    else
+      let h := getOracle pool hdr
+      let f := getOracle pool ftr
+      some ({ header := (h.getD #[]).toCell, footer := (f.getD #[]).toCell, cells := cellOs.map Oracle.toCell,
+              width := decOptInt w, minWidth := decOptInt mn, maxWidth := decOptInt mx, ratio := decOptInt ra,
+              noWrap := decBool nw },
+            h.toList ++ cellOs ++ f.toList)
+  | _ => none
+
+def decVariant (pool : Array Oracle) (s : String) : Option Variant :=
+  match s.splitOn ";" with
+  | [fls, avail, opts, rows, cols] =>
+    match fls.splitOn " ", opts.splitOn " " with
+    | [lr, mc], [bx, sh, sf, se, sl, leading, pt, pr, pb, pl, pe, cp, ex, w, mw, ti, ca] =>
+      match lookupBox bx with
+      | none => none
+      | some box =>
+        let colsD := if cols.isEmpty then [] else (cols.splitOn ",").map (decColumn pool)
+        if colsD.any Option.isNone then none
+        else
+          let colsL := colsD.filterMap id
+          let titleO := getOracle pool ti
+          let captionO := getOracle pool ca
+          let rowsL := decBools rows
+          let showHeader := decBool sh
+          let showFooter := decBool sf
+          -- a header / footer oracle must be present exactly when it is shown
+          let t : Table :=
+            { columns := colsL.map (·.1), rowEndSection := rowsL, box := box,
+              showHeader := showHeader, showFooter := showFooter, showEdge := decBool se, showLines := decBool sl,
+              leading := decInt leading, padding := (decInt pt, decInt pr, decInt pb, decInt pl),
+              padEdge := decBool pe, collapsePadding := decBool cp, expandFlag := decBool ex,
+              width := decOptInt w, minWidth := decOptInt mw,
+              title := titleO.map Oracle.toLines, caption := captionO.map Oracle.toLines }
+          let okShape := colsL.all (fun co =>
+            co.2.length == co.1.cells.length + (if showHeader then 1 else 0) + (if showFooter then 1 else 0))
+          if !okShape then none
+          else some { fl := { leadingRepeat := decBool lr, minWidthCapsExpand := decBool mc }, avail := decInt avail, t := t,
+                      colOracles := colsL.map (·.2), titleO, captionO,
+                      wf := colsL.all (fun co => co.1.cells.length ≤ rowsL.length) }
+    | _, _ => none
+  | _ => none
+
+/-- All oracle consultations of `Table.render` are inside the tabulated range. -/
+def Variant.inRange (v : Variant) (r : Rendered) : Bool :=
+  let t := v.t
+  let maxWidth := t.width.getD v.avail - t.extraWidth
+  let firstOk := maxWidth < 1 ||
+    ((t.columns.zip v.colOracles).all (fun co => co.1.width.isSome || co.2.all (·.has maxWidth.toNat)))
+  let reOk := match t.firstWidths maxWidth with
+    | some ws => if ws.sum > maxWidth then
+        -- fixed-width columns are not consulted on re-measure either, but asking is harmless
+        ((t.shrinkPre ws maxWidth).1.zip (t.columns.zip v.colOracles)).all
+          (fun wco => wco.1 < 1 || wco.2.1.width.isSome || wco.2.2.all (·.has wco.1.toNat))
+      else true
+    | none => true
+  let renderOk := (r.widths.zip v.colOracles).all (fun wo => wo.2.all (·.has wo.1.toNat))
+  let tw := (r.widths.sum + t.extraWidth).toNat
+  let annOk := (match v.titleO with | some o => o.has tw | none => true) &&
+               (match v.captionO with | some o => o.has tw | none => true)
+  firstOk && reOk && renderOk && annOk
+
+def encRendered (r : Rendered) : String := "W" ++ encInts r.widths ++ "L" ++ encStrList r.lines
+
+def runVariant (pool : Array Oracle) (s : String) : String :=
+  match decVariant pool s with
+  | none => "unmodelled"
+  | some v =>
+    if !v.wf then "unmodelled"
+    else match v.t.render v.fl cw v.avail with
+      | none => "err:AssertionError"
+      | some r => if v.inRange r then encRendered r else "unmodelled"
+
+def encPad : Option (Int × Int × Int × Int) → String
+  | none => "-"
+  | some (a, b, c, d) => s!"{a} {b} {c} {d}"
+
+def handlers : List (String × (List String → String)) := Drv.Ratio.handlers ++ [
+  ("table.bundle", fun a => match a with
+    | pool :: variants =>
+      let p := decPool pool
+      "@".intercalate (variants.map (runVariant p))
+    | _ => "bad-args"),
+  -- `add_padding` of `_get_cells`: padding(4) padEdge collapse firstCol lastCol firstRow lastRow
+  ("table.cell_padding", fun a => match a with
+    | [pt, pr, pb, pl, pe, cp, fc, lc, fr, lr] =>
+      let t : Table := { columns := [], padding := (decInt pt, decInt pr, decInt pb, decInt pl),
+                         padEdge := decBool pe, collapsePadding := decBool cp }
+      encPad (t.cellPadding (decBool fc) (decBool lc) (decBool fr) (decBool lr))
+    | _ => "bad-args"),
+  -- `_get_padding_width(column_index)`
+  ("table.padding_width", fun a => match a with
+    | [pt, pr, pb, pl, cp, idx] =>
+      let t : Table := { columns := [], padding := (decInt pt, decInt pr, decInt pb, decInt pl), collapsePadding := decBool cp }
+      toString (t.paddingWidth (decNat idx))
+    | _ => "bad-args"),
+  -- Box.get_top / get_row / get_bottom: name, which (top|bottom|head|row|mid|foot), edge, widths
+  ("box.row", fun a => match a with
+    | [name, which, edge, ws] =>
+      match lookupBox name with
+      | some (some b) =>
+        let widths := (decInts ws).map Int.toNat
+        let e := decBool edge
+        if which == "top" then encStr (b.getTop widths).text
+        else if which == "bottom" then encStr (b.getBottom widths).text
+        else if which == "head" then encStr (b.getRow .headSep .head e widths).text
+        else if which == "row" then encStr (b.getRow .rowSep .row e widths).text
+        else if which == "mid" then encStr (b.getRow .midSep .mid e widths).text
+        else if which == "foot" then encStr (b.getRow .footSep .foot e widths).text
+        else "err:ValueError"
+      | _ => "unmodelled"
+    | _ => "bad-args")
+]
 
 end RichModel.Drv.C07
